@@ -7,6 +7,7 @@ from .. import gen, probe
 from ..drive import call
 from ..shard import Workload
 from ._common import arm_tt
+from . import ambient
 
 P = 'C05'
 tt = None
@@ -22,7 +23,7 @@ def vector_tt(rng):
     rows = gen.rand_dims(rng, d, 4, p_one=0.2)
     while np.prod(rows) > 4000:
         rows[int(rng.integers(0, d))] = 2
-    cplx = bool(rng.integers(0, 2))
+    cplx = gen.rand_cplx(rng)
     k = int(rng.integers(0, 3))
     if k == 0:  # full-rank unfoldings: maximal feasible ranks
         ranks = gen.max_ranks(rows, [1] * d)
@@ -79,6 +80,7 @@ def w_pinv(ctx, rng, idx):
 WORKLOADS = [
     Workload('svd', w_svd, 300, 6000),
     Workload('pinv', w_pinv, 300, 6000),
+    ambient.WORKLOAD,
 ]
 REQUIRED = ['C05|TT.svd:u_orthonormal_columns', 'C05|TT.svd:v_orthonormal_rows', 'C05|TT.svd:singular_values', 'C05|TT.svd:reconstruction',
             'C05|TT.svd:number_of_singular_values', 'C05|TT.svd:max_rank', 'C05|TT.pinv:value', 'C06|TT.svd:argument_unchanged',
